@@ -62,6 +62,9 @@ def run(ctx):
         except AnalysisError as e:
             sub.undecided('CFG-9', 'symbolic rules over the driver', loc(fi), 'layout not recognised: %s' % e)
     cube_rules(ctx)
+    # the rows hold each model's flux as the file states it: the unit strings of the SED files are read by parse_unit_safe
+    from . import c15
+    c15.check_unit_strings(ctx)
 
 
 def driver_symbolic(ctx):
